@@ -63,12 +63,12 @@ def run(pid, tier):
         cold = 24 if tier == "quick" else 200   # extra short processes: only the cold-start burst + 1 round
         traces = []
         races = []
-        for tname in ("pinned", "tsan"):
+        for tname in ("pinned", "tsan", "c99"):
             drv = vlib.build_driver("drv_threads", tname, LIB, **BUILD)
             ncold = cold if tname == "pinned" else max(cold // 6, 3)
             for rep in range(reps + ncold):
                 prefix = os.path.join(work, "thr-%s-%d" % (tname, rep))
-                nrounds = rounds if tname == "pinned" else max(rounds // 4, 10)
+                nrounds = rounds if tname == "pinned" else max(rounds // 4, 10) if tname == "tsan" else max(rounds // 2, 10)
                 if rep >= reps:
                     nrounds = 1
                 env = dict(os.environ, VERIF_SEED=str(vlib.SEED + rep),
